@@ -1,4 +1,5 @@
 import ServiceModel.Proofs.BindKeys
+import ServiceModel.Proofs.Restart
 /-!
 # The model state is a faithful store: one record per key, in every map and every index
 
@@ -346,5 +347,156 @@ theorem newBatch_ak (s : State) (c : CtxId) : AK s (newBatch s c).s := by
     split; · ak_shape
     split; · ak_shape
     exact AK.trans (by ak_shape) ((startOrSkip_ak _ c x).trans (by ak_shape))
+
+theorem endBlock_ak (s : State) (dt : Int) : AK s (endBlock s dt).s := by
+  unfold endBlock
+  dsimp only
+  have h1 := foldH_ak expireBatch expireBatch_ak (queuedAt s.expQ s.height) s
+  split
+  · exact h1
+  · have h2 := foldH_ak newBatch newBatch_ak
+      (queuedAt (foldH expireBatch s (queuedAt s.expQ s.height)).s.newQ (foldH expireBatch s (queuedAt s.expQ s.height)).s.height)
+      (foldH expireBatch s (queuedAt s.expQ s.height)).s
+    split
+    · exact h1.trans h2
+    · exact h1.trans (h2.trans (by ak_shape))
+
+/-! ### every step -/
+theorem exec_ak (s : State) (op : Op) : AK s (exec s op).1 := by
+  cases op with
+  | fund a n => show AK s _; ak_shape
+  | xfer a b n =>
+    show AK s (match bankSend s.bank a b n with
+      | none => fail s Err.insufficientFunds
+      | some bank' => ({ s with bank := bank' }, Res.ok, [])).1
+    split
+    · exact AK.refl s
+    · ak_shape
+  | define n a ok => exact define_ak s n a
+  | bind svc p o dep text qos =>
+    show AK s (match text with
+      | some t => bind s svc p o dep t qos
+      | none => (s, Res.invalid, [])).1
+    cases text with
+    | none => exact AK.refl s
+    | some t => exact bind_ak s svc p o dep t qos
+  | update svc p o dep text qos => exact update_ak s svc p o dep text qos
+  | setwd o a => show AK s _; ak_shape
+  | disable svc p o => exact disable_ak s svc p o
+  | enable svc p o dep => exact enable_ak s svc p o dep
+  | refund svc p o => exact refund_ak s svc p o
+  | call id svc provs cons cap timeout super rep freq total inputOk =>
+    show AK s (if s.cfg.modsvc = some svc then panicOut s "module-service call: outside the model"
+      else createCtx s id "" svc provs cons cap timeout super rep freq total inputOk true 0).1
+    split
+    · exact AK.refl s
+    · exact createCtx_ak _ _ _ _ _ _ _ _ _ _ _ _ _ _ _
+  | modcreate id mod svc provs cons cap timeout super rep freq total inputOk running thr => exact createCtx_ak _ _ _ _ _ _ _ _ _ _ _ _ _ _ _
+  | respond r p code out => exact respond_ak s r p code out
+  | pause c cons => exact ctxMsg_ak s c cons _ (pauseK_ak s c cons)
+  | start c cons => exact ctxMsg_ak s c cons _ (startK_ak s c cons)
+  | kill c cons => exact ctxMsg_ak s c cons _ (killK_ak s c cons)
+  | updatectx c cons provs cap timeout freq total => exact ctxMsg_ak s c cons _ (updateK_ak _ _ _ _ _ _ _ _ _)
+  | modpause c cons => exact pauseK_ak s c cons
+  | modstart c cons => exact startK_ak s c cons
+  | modkill c cons => exact killK_ak s c cons
+  | modupdate c cons provs thr cap timeout freq total => exact updateK_ak _ _ _ _ _ _ _ _ _
+  | withdraw o p => exact withdraw_ak s o p
+  | endblock dt =>
+    show AK s (match (endBlock s dt).panic with
+        | some m => (s, Res.panic m, (endBlock s dt).effs)
+        | none => ((endBlock s dt).s, Res.ok, (endBlock s dt).effs)).1
+    split
+    · exact AK.refl s
+    · exact endBlock_ak s dt
+
+theorem step_ak (s : State) (op : Op) : AK s (step s op).1 := by
+  unfold step
+  split
+  · exact AK.refl s
+  · have h := exec_ak s op
+    cases he : exec s op with
+    | mk s' re =>
+      obtain ⟨res, effs⟩ := re
+      rw [he] at h
+      dsimp only
+      split
+      · exact h
+      · split
+        · exact h
+        · exact AK.refl s
+
+theorem keys1_genesis (cfg : Config) (p : Params) (h0 t0 : Int) : Keys1 (genesis cfg p h0 t0) := by
+  constructor <;> simp [genesis, NodupKeys, keys]
+
+/-! ### the import builds a faithful store from any genesis -/
+theorem nodupKeys_foldl_set {κ ν : Type} [DecidableEq κ] (l : List (κ × ν)) : ∀ (m : Map κ ν), NodupKeys m →
+    NodupKeys (l.foldl (fun m e => set m e.1 e.2) m) := by
+  induction l with
+  | nil => intro m h; exact h
+  | cons a t ih => intro m h; exact ih _ (nodupKeys_set _ _ _ h)
+
+theorem importBindings_ak : ∀ (L : List ((SvcName × Addr) × Binding)) (s1 s2 : State),
+    importBindings s1 L = some s2 → AK s1 s2 := by
+  intro L
+  induction L with
+  | nil => intro s1 s2 h; simp only [importBindings, Option.some.injEq] at h; subst h; exact AK.refl _
+  | cons e t ih =>
+    intro s1 s2 h
+    unfold importBindings at h
+    cases hib : importBinding s1 e with
+    | none => rw [hib] at h; cases h
+    | some s1' =>
+      rw [hib] at h; dsimp only at h
+      refine AK.trans ?_ (ih s1' s2 h)
+      unfold importBinding at hib
+      split at hib
+      · injection hib with hib; subst hib; ak_shape
+      · cases hib
+
+theorem importG_keys1 {cfg : Config} {g : GenesisState} {height time : Int} {s' : State}
+    (h : importG cfg g height time = some s') : Keys1 s' := by
+  unfold importG at h
+  split at h
+  · cases h
+  · dsimp only at h
+    split at h
+    · cases h
+    · rename_i s2 hs2
+      injection h with h; subst h
+      have k0 : Keys1 { genesis cfg g.params height time with defs := g.defs.foldl (fun m e => set m e.1 e.2) [] } := by
+        have g0 := keys1_genesis cfg g.params height time
+        obtain ⟨h1, h2, h3, h4, h5, h6, h7, h8, h9, h10, h11, h12, h13, h14, h15, h16, h17⟩ := g0
+        constructor <;> (try dsimp only) <;> first | assumption | exact nodupKeys_foldl_set _ _ nodupKeys_nil
+      have k2 := importBindings_ak _ _ _ hs2 k0
+      obtain ⟨h1, h2, h3, h4, h5, h6, h7, h8, h9, h10, h11, h12, h13, h14, h15, h16, h17⟩ := k2
+      constructor <;> (try dsimp only) <;> first | assumption | exact nodupKeys_foldl_set _ _ nodupKeys_nil
+
+/-- the restarted chain starts from a faithful store, whatever the old state was -/
+theorem restart_keys1 {s s' : State} {height time : Int} (h : restart s height time = some s') : Keys1 s' := by
+  unfold restart at h
+  split at h
+  · cases h
+  · split at h
+    · cases h
+    · rename_i s0 himp
+      injection h with h; subst h
+      have k := importG_keys1 himp
+      obtain ⟨h1, h2, h3, h4, h5, h6, h7, h8, h9, h10, h11, h12, h13, h14, h15, h16, h17⟩ := k
+      constructor <;> assumption
+
+/-- every state of every chain — any operations, any number of restarts — is a faithful store -/
+theorem keys1_reachableR {cfg : Config} {p : Params} {h0 t0 : Int} {s : State} (hr : ReachableR cfg p h0 t0 s) :
+    Keys1 s := by
+  induction hr with
+  | init => exact keys1_genesis _ _ _ _
+  | step op _ _ ih => exact step_ak _ op ih
+  | restart height time _ hre _ => exact restart_keys1 hre
+
+theorem keys1_reachable {cfg : Config} {p : Params} {h0 t0 : Int} {s : State} (hr : Reachable cfg p h0 t0 s) :
+    Keys1 s := by
+  induction hr with
+  | init => exact keys1_genesis _ _ _ _
+  | step op _ _ ih => exact step_ak _ op ih
 
 end SM
